@@ -193,7 +193,7 @@ impl Check for C07SortBy {
         // mostly <= 40 rows; one case in six is long (sorting algorithms switch strategy with the
         // length, e.g. insertion sort below ~20 elements, so short inputs alone cannot see an
         // unstable or length-dependent sort)
-        let recs = prop_oneof![5 => arb_recs(KEY_FIELDS, all_universe(), 40, 1), 1 => arb_recs(KEY_FIELDS, all_universe(), 160, 1)];
+        let recs = prop_oneof![50 => arb_recs(KEY_FIELDS, all_universe(), 40, 1), 10 => arb_recs(KEY_FIELDS, all_universe(), 160, 1), 1 => arb_recs(KEY_FIELDS, all_universe(), 2500, 1)];
         (recs, arb_sort_keys()).prop_map(|(recs, keys)| CaseSortBy { recs, keys }).boxed()
     }
     fn check(&self, case: &CaseSortBy) -> CaseResult {
